@@ -224,7 +224,7 @@ var ops = map[string]func(x *world, r *result){
 	},
 	"TxWithChange": func(x *world, r *result) {
 		out := wire.NewTxOut(5e6, payTo)
-		tx, err := x.w.VerifTxToOutputs([]*wire.TxOut{out}, nil, nil, 0, 1, 1000, wallet.CoinSelectionLargest, false, nil)
+		tx, err := x.w.VerifTxToOutputs([]*wire.TxOut{out}, nil, &scope, 0, 1, 1000, wallet.CoinSelectionLargest, false, nil)
 		r.err, r.commits = err, true
 		if err == nil && tx.ChangeIndex >= 0 {
 			r.intl = []string{extAddr(tx.Tx.TxOut[tx.ChangeIndex].PkScript)}
@@ -232,7 +232,7 @@ var ops = map[string]func(x *world, r *result){
 	},
 	"TxDryRun": func(x *world, r *result) {
 		out := wire.NewTxOut(5e6, payTo)
-		tx, err := x.w.VerifTxToOutputs([]*wire.TxOut{out}, nil, nil, 0, 1, 1000, wallet.CoinSelectionLargest, true, nil)
+		tx, err := x.w.VerifTxToOutputs([]*wire.TxOut{out}, nil, &scope, 0, 1, 1000, wallet.CoinSelectionLargest, true, nil)
 		r.err, r.commits = err, false
 		if err == nil && tx.ChangeIndex >= 0 {
 			r.intl = []string{extAddr(tx.Tx.TxOut[tx.ChangeIndex].PkScript)}
@@ -260,6 +260,16 @@ type scenario struct {
 func main() {
 	args := os.Args[1:]
 	run := ev.NewRun("C09", "model_checking", args)
+	if !ev.IsWorker() {
+		cov := run.RunSharded(16, args)
+		cov["rule"] = c09Rule
+		if _, ok := cov["samples"]; !ok {
+			cov["samples"] = []string{"(none)"}
+		}
+		run.Assumption = c09Assumptions
+		run.Finish(cov)
+		return
+	}
 	dir := ev.Scratch()
 	tmpl := makeTemplate(dir)
 	names := []string{"NewAddress", "NewChangeAddress", "CurrentAddress", "TxWithChange", "TxDryRun", "FundPsbtPreset"}
@@ -285,7 +295,10 @@ func main() {
 	perScenario := map[string]int{}
 	var samples []string
 	complete := true
-	for _, sc := range scenarios {
+	for si, sc := range scenarios {
+		if !ev.Mine(si) {
+			continue
+		}
 		if run.Expired() {
 			complete = false
 			break
@@ -355,27 +368,28 @@ func main() {
 			nontrivial++
 		}
 	}
-	run.Assumption = []string{
-		"scheduling points are the mutex/rwmutex acquisitions of wallet, waddrmgr (sync import rewritten by an overlay generated from the current tree) and bbolt (local copy with the same one-line rewrite); code between two acquisitions runs atomically",
-		"the wallet's own goroutines are not started; the backend is attached through a build-tagged hook; CreateSimpleTx is exercised through its body txToOutputs",
-		"memory-model effects are outside a cooperative scheduler",
-	}
 	run.Finish(ev.Coverage{
-		"states":                        len(outcomes),
+		"states@set":                    ocl,
 		"transitions":                   totalPoints,
 		"traces_validated_against_impl": totalExecs,
 		"executions":                    totalExecs,
 		"evaluations":                   totalExecs,
 		"distinct_nontrivial":           nontrivial,
-		"rule":                          "for every pair (thorough: + selected triples) of address-issuing calls on the same account, every schedule with at most the stated number of preemptions (CHESS iteration 0,1,2,..) is executed on a fresh copy of a funded wallet; oracle: successful calls obtain pairwise distinct addresses, the addresses obtained on each branch are exactly the next ones of the single-threaded plan (gap-free range), key counts of the live manager = model = a manager freshly opened on the file; no deadlock, no panic; states = distinct (scenario, outcome) pairs, non-trivial = outcomes in which at least two calls succeeded",
-		"preemption_bound_completed":    bound,
-		"scenarios":                     len(scenarios),
+		"preemption_bound_completed@max": bound,
+		"scenarios":                     len(perScenario),
 		"executions_per_scenario":       perScenario,
-		"max_scheduling_points":         maxPoints,
-		"distinct_outcomes":             ocl,
+		"max_scheduling_points@max":     maxPoints,
 		"exhaustive":                    complete,
 		"samples":                       samples,
 	})
+}
+
+const c09Rule = "for every pair (thorough: + selected triples) of address-issuing calls {NewAddress, NewChangeAddress, CurrentAddress, txToOutputs with change, txToOutputs dry run, FundPsbt with pre-set input} on the same account, every schedule with at most the stated number of preemptions (CHESS iteration 0,1,2,..) is executed on a fresh copy of a funded wallet; oracle: the returned addresses are linearizable w.r.t. a per-branch counter model (implies pairwise distinct fresh addresses and a gap-free range), key counts of the live manager = model = a manager freshly opened on the file; no call fails, no deadlock, no panic; states = distinct (scenario, outcome) pairs, non-trivial = outcomes in which at least two calls succeeded"
+
+var c09Assumptions = []string{
+	"scheduling points are the mutex/rwmutex acquisitions of wallet, waddrmgr (sync import rewritten by an overlay generated from the current tree) and bbolt (local copy with the same one-line rewrite); code between two acquisitions runs atomically",
+	"the wallet's own goroutines are not started; the backend is attached through a build-tagged hook; CreateSimpleTx is exercised through its body txToOutputs",
+	"memory-model effects are outside a cooperative scheduler",
 }
 
 // checkExec evaluates the oracle on one complete execution.
@@ -394,50 +408,110 @@ func checkExec(run *ev.Run, sc scenario, x *vsync.Exec, w *world, results []*res
 		return "panic"
 	}
 	var outcome []string
-	seen := map[string]string{}
-	var ext, intl []string
-	for i, r := range results {
+	for _, r := range results {
 		if r.err != nil {
-			outcome = append(outcome, "err")
-			continue
+			outcome = append(outcome, "err:"+r.err.Error())
+		} else {
+			outcome = append(outcome, "ok")
 		}
-		outcome = append(outcome, "ok")
-		for _, a := range append(append([]string{}, r.ext...), r.intl...) {
-			if prev, dup := seen[a]; dup && (r.commits || strings.HasPrefix(prev, "commit")) {
-				// a dry run legitimately shows the address the next committed call will get;
-				// two calls that both keep their address must never share it
-				if r.commits && strings.HasPrefix(prev, "commit") {
-					fail("duplicate-address:"+pairName(sc.Threads), fmt.Sprintf("address %s was handed out twice (thread %d %s and %s)", a, i, r.op, prev))
+	}
+	// Linearizability against the per-branch counter model: some sequential
+	// order of the calls must explain every returned address. (Each thread
+	// makes one call and all calls overlap, so every permutation is allowed.)
+	type mstate struct {
+		e, i        int
+		lastExtUsed bool
+	}
+	step := func(m mstate, r *result) (mstate, bool) {
+		if r.err != nil {
+			return m, true // a failed call has no effect
+		}
+		get := func(plan []string, k int) string {
+			if k >= 0 && k < len(plan) {
+				return plan[k]
+			}
+			return "?"
+		}
+		one := func(l []string) string {
+			if len(l) == 1 {
+				return l[0]
+			}
+			return ""
+		}
+		switch r.op {
+		case "NewAddress":
+			ok := one(r.ext) == get(extPlan, m.e)
+			m.e++
+			m.lastExtUsed = false
+			return m, ok
+		case "CurrentAddress":
+			if m.lastExtUsed {
+				ok := one(r.ext) == get(extPlan, m.e)
+				m.e++
+				m.lastExtUsed = false
+				return m, ok
+			}
+			return m, one(r.ext) == get(extPlan, m.e-1)
+		case "NewChangeAddress", "TxWithChange", "FundPsbtPreset":
+			ok := one(r.intl) == get(intPlan, m.i)
+			m.i++
+			return m, ok
+		case "TxDryRun":
+			return m, one(r.intl) == get(intPlan, m.i)
+		}
+		return m, false
+	}
+	var final *mstate
+	var perm func(rest []int, m mstate) bool
+	perm = func(rest []int, m mstate) bool {
+		if len(rest) == 0 {
+			final = &m
+			return true
+		}
+		for k, idx := range rest {
+			m2, ok := step(m, results[idx])
+			if !ok {
+				continue
+			}
+			rr := append(append([]int{}, rest[:k]...), rest[k+1:]...)
+			if perm(rr, m2) {
+				return true
+			}
+		}
+		return false
+	}
+	idxs := make([]int, len(results))
+	for i := range idxs {
+		idxs[i] = i
+	}
+	var got []string
+	for _, r := range results {
+		got = append(got, fmt.Sprintf("%s=%v%v", r.op, r.ext, r.intl))
+	}
+	for _, r := range results {
+		if r.err != nil {
+			fail("call-failed:"+r.op, fmt.Sprintf("%s failed: %v", r.op, r.err))
+		}
+	}
+	if !perm(idxs, mstate{lastExtUsed: true}) {
+		// classify: duplicate fresh address vs gap
+		kind := "not-linearizable"
+		fresh := map[string]int{}
+		for _, r := range results {
+			if r.err == nil && r.op != "CurrentAddress" && r.op != "TxDryRun" {
+				for _, a := range append(append([]string{}, r.ext...), r.intl...) {
+					fresh[a]++
+					if fresh[a] > 1 {
+						kind = "duplicate-address"
+					}
 				}
 			}
-			tag := "dry"
-			if r.commits {
-				tag = "commit"
-			}
-			if _, ok := seen[a]; !ok || tag == "commit" {
-				seen[a] = fmt.Sprintf("%s thread %d %s", tag, i, r.op)
-			}
 		}
-		if r.commits {
-			ext = append(ext, r.ext...)
-			intl = append(intl, r.intl...)
-		}
+		fail(kind+":"+pairName(sc.Threads), fmt.Sprintf("no sequential order of the calls explains the addresses obtained %v (next external %v, next internal %v)", got, extPlan[:3], intPlan[:3]))
+		return strings.Join(outcome, ",")
 	}
-	// gap-free ranges: the committed addresses on a branch are exactly the next ones of the plan
-	checkRange := func(branch string, got, plan []string) {
-		want := map[string]bool{}
-		for i := 0; i < len(got) && i < len(plan); i++ {
-			want[plan[i]] = true
-		}
-		for _, a := range got {
-			if !want[a] {
-				fail("gap-or-foreign-address:"+branch+":"+pairName(sc.Threads), fmt.Sprintf("%s addresses obtained %v are not the next %d addresses of the branch %v", branch, got, len(got), plan[:min(len(got), len(plan))]))
-				return
-			}
-		}
-	}
-	checkRange("external", ext, extPlan)
-	checkRange("internal", intl, intPlan)
+	ext := make([]string, final.e)
+	intl := make([]string, final.i)
 	// memory = model = database
 	p, err := accountProps(w)
 	if err != nil {
